@@ -22,10 +22,13 @@ DEMO_WITH=na; DEMO_WITHOUT=na
 if [ -f $SRC/demo_test.go ]; then
   cp $SRC/demo_test.go $WT/zz_seed_demo_test.go
   NAMES=$(grep -o "^func Test[A-Za-z0-9_]*" $WT/zz_seed_demo_test.go | sed 's/func //' | paste -sd'|')
-  if go test -vet=off -count=1 -run "^($NAMES)\$" . >>$LOG 2>&1; then DEMO_WITH=pass; else DEMO_WITH=fail; fi
+  # a demo "fails" when one of its tests fails or panics or does not build; the package's TestMain
+  # reporting leaked goroutines after a PASS (demos often leave connections open) does not count
+  demo() { go test -vet=off -count=1 -v -run "^($NAMES)\$" . >/tmp/seed-$ID-demo.out 2>&1; cat /tmp/seed-$ID-demo.out >>$LOG; if grep -q "^--- FAIL\|^panic:\|^fatal error:\|build failed\|^FAIL.*setup failed" /tmp/seed-$ID-demo.out || ! grep -q "^--- PASS\|^PASS\|^ok" /tmp/seed-$ID-demo.out; then echo fail; else echo pass; fi; rm -f /tmp/seed-$ID-demo.out; }
+  DEMO_WITH=$(demo)
   # (no git stash: refs/stash is shared by all worktrees of /repo)
   git apply -R /tmp/seed-$ID-applied.diff
-  if go test -vet=off -count=1 -run "^($NAMES)\$" . >>$LOG 2>&1; then DEMO_WITHOUT=pass; else DEMO_WITHOUT=fail; fi
+  DEMO_WITHOUT=$(demo)
   git apply /tmp/seed-$ID-applied.diff
   rm -f $WT/zz_seed_demo_test.go
 fi
